@@ -184,7 +184,9 @@ class C10(Spec):
                 base = "/" + "/".join(rng.choice("abc") for _ in range(rng.randint(1, 2)))
                 chain = [base]
                 for d in range(rng.randint(1, 2)):
-                    chain.append(chain[-1] + "/" + rng.choice(["a", "b", ":q%d" % d, ":r%d?" % d, "*"]))
+                    # one parameter name and one optional name per tree position (absolute depth), as in gen_pattern
+                    depth = chain[-1].count("/")
+                    chain.append(chain[-1] + "/" + rng.choice(["a", "b", ":p%d" % depth, ":o%d?" % depth, "*"]))
                 okc = []
                 for res in chain:
                     hid += 1
